@@ -29,9 +29,16 @@ type recorder struct {
 	ops       []string
 	phase     string // "" before the error handler runs, "eh" inside it
 	superfl   int
+	// failWrite: the n-th Write (0-based) accepts half of its bytes and reports an error (the
+	// client's connection hiccups); later writes go through. -1: never.
+	failWrite int
+	writes    int
+	wfired    bool
 }
 
-func newRecorder() *recorder { return &recorder{hdr: http.Header{}} }
+func newRecorder() *recorder { return &recorder{hdr: http.Header{}, failWrite: -1} }
+
+var errClientWrite = errors.New("sim: write to the client failed")
 
 func (r *recorder) Header() http.Header { return r.hdr }
 func (r *recorder) commit(code int) {
@@ -53,6 +60,12 @@ func (r *recorder) WriteHeader(code int) {
 func (r *recorder) Write(p []byte) (int, error) {
 	r.ops = append(r.ops, fmt.Sprintf("%sWrite(%d)", r.phase, len(p)))
 	r.commit(200)
+	r.writes++
+	if r.writes-1 == r.failWrite {
+		r.wfired = true
+		r.body.Write(p[:len(p)/2])
+		return len(p) / 2, errClientWrite
+	}
 	r.body.Write(p)
 	return len(p), nil
 }
@@ -315,6 +328,34 @@ func c11World(rc *kernel.RunCtx) {
 						}
 					}
 				}
+			}
+		}
+	}
+	// the render succeeds but a write to the client fails (one-shot; later writes go through):
+	// what the client has received by then is document bytes under the success status, so
+	// nothing of an error response may follow it
+	if !rc.Failed() && len(D) > 0 {
+		for _, eh := range []int{0, 1, 2, 4} {
+			conf := hconf{Status: statuses[t.Choose(len(statuses), "cw-status")], EH: eh}
+			var rec *recorder
+			h := conf.handler(mk(len(chunks)+1, newEnv(u)), &rec)
+			rec = newRecorder()
+			rec.failWrite = t.Choose(2, "cw-write")
+			h.ServeHTTP(rec, httptest.NewRequest(http.MethodGet, "/page", nil))
+			rec.commit(200)
+			evals++
+			if !rec.wfired {
+				continue
+			}
+			k.Count("fault_client_write_failed_after_successful_render", 1)
+			body := rec.body.Bytes()
+			wantStatus := conf.Status
+			if wantStatus == 0 {
+				wantStatus = 200
+			}
+			errText := bytes.Contains(body, []byte(ehBody)) || (len(defaultErrBody) > 0 && bytes.Contains(body, bytes.TrimSpace(defaultErrBody)))
+			if errText || rec.status != wantStatus {
+				rc.Fail("C11/error-response-after-document-bytes", "conf %+v: the render succeeded and write %d to the client failed half way; the response is status %d (want %d) and its body mixes document bytes with an error response: %q ops %v", conf, rec.failWrite, rec.status, wantStatus, kernel.Short(string(body[max(0, len(body)-200):]), 200), rec.ops)
 			}
 		}
 	}
